@@ -1,4 +1,5 @@
 import ScriggoV.Lemmas.ConstIntBig
+import ScriggoV.Lemmas.ConstIntPromote
 /-! # C02 — compile-time integer constant arithmetic is exact
 
 Property theorems only (helper lemmas: `Lemmas/ConstIntBits.lean`, `ConstIntFast.lean`,
@@ -391,6 +392,112 @@ theorem overflow_limit (v : Int) : bigOverflows v = !fitsUntyped v := by
   have : overflowBits = untypedBits := by decide
   rw [this]
   by_cases h : 2 ^ untypedBits ≤ v.natAbs <;> simp [h] <;> omega
+
+/-! ## promotion of two constants to the same implementation (`toSameConstImpl`, generated `promote`)
+
+`NC.valid` is what each implementation can hold.  For every pair of different implementations except
+`floatConst` with `ratConst` the promotion is exact for **all** values: it succeeds, changes neither
+value, and both results have the same implementation.  (If a conversion that rounds — e.g.
+`newFloatConst(float64(n))` for an `int64Const` `n`, which keeps 53 bits — were used, the generated
+table would contain the step `i64ToF64` and this theorem would fail at `n = 2^53 + 1`.) -/
+
+set_option exponentiation.threshold 600 in
+local macro "promo" : tactic =>
+  `(tactic| simp [toSame, promote, NC.impl, applySteps, applyStep, stepTarget, stepExactOn, NC.val, SC.val,
+      repQ_intCast, bind, Except.bind, pure, Except.pure, *])
+
+theorem promotion_exact (a b : NC) (ha : a.valid) (hb : b.valid) (hd : a.impl ≠ b.impl)
+    (hfr : ¬ (a.impl = .bigf ∧ b.impl = .rat)) (hrf : ¬ (a.impl = .rat ∧ b.impl = .bigf)) :
+    ∃ a' b', toSame a b = .ok (a', b') ∧ a'.val = a.val ∧ b'.val = b.val ∧ a'.impl = b'.impl := by
+  have key : ∃ a' b', toSame a b = .ok (a', b') ∧ a'.impl = b'.impl := by
+    have h53 : float64Prec ≤ bigFloatPrec := by decide
+    cases a with
+    | int sa =>
+      cases sa with
+      | small x =>
+        have hx : repBits bigFloatPrec x.toInt.natAbs = true := repBits_of_lt (natAbs_toInt_lt x)
+        cases b with
+        | int sb =>
+          cases sb with
+          | small y => exact absurd rfl hd
+          | big w => exact ⟨.int (.big x.toInt), .int (.big w), by promo, rfl⟩
+        | f64 w =>
+          have hw := repQ_mono h53 hb
+          exact ⟨.bigf (x.toInt : Int), .bigf w, by promo, rfl⟩
+        | bigf w => exact ⟨.bigf (x.toInt : Int), .bigf w, by promo, rfl⟩
+        | rat w => exact ⟨.rat (x.toInt : Int), .rat w, by promo, rfl⟩
+      | big v =>
+        have hv : repBits bigFloatPrec v.natAbs = true := repBits_of_lt ha
+        cases b with
+        | int sb =>
+          cases sb with
+          | small y => exact ⟨.int (.big v), .int (.big y.toInt), by promo, rfl⟩
+          | big w => exact absurd rfl hd
+        | f64 w =>
+          have hw := repQ_mono h53 hb
+          exact ⟨.bigf (v : Int), .bigf w, by promo, rfl⟩
+        | bigf w => exact ⟨.bigf (v : Int), .bigf w, by promo, rfl⟩
+        | rat w => exact ⟨.rat (v : Int), .rat w, by promo, rfl⟩
+    | f64 v =>
+      have hv := repQ_mono h53 ha
+      cases b with
+      | int sb =>
+        cases sb with
+        | small y =>
+          have hy : repBits bigFloatPrec y.toInt.natAbs = true := repBits_of_lt (natAbs_toInt_lt y)
+          exact ⟨.bigf v, .bigf (y.toInt : Int), by promo, rfl⟩
+        | big w =>
+          have hw : repBits bigFloatPrec w.natAbs = true := repBits_of_lt hb
+          exact ⟨.bigf v, .bigf (w : Int), by promo, rfl⟩
+      | f64 w => exact absurd rfl hd
+      | bigf w => exact ⟨.bigf v, .bigf w, by promo, rfl⟩
+      | rat w => exact ⟨.rat v, .rat w, by promo, rfl⟩
+    | bigf v =>
+      cases b with
+      | int sb =>
+        cases sb with
+        | small y =>
+          have hy : repBits bigFloatPrec y.toInt.natAbs = true := repBits_of_lt (natAbs_toInt_lt y)
+          exact ⟨.bigf v, .bigf (y.toInt : Int), by promo, rfl⟩
+        | big w =>
+          have hw : repBits bigFloatPrec w.natAbs = true := repBits_of_lt hb
+          exact ⟨.bigf v, .bigf (w : Int), by promo, rfl⟩
+      | f64 w =>
+        have hw := repQ_mono h53 hb
+        exact ⟨.bigf v, .bigf w, by promo, rfl⟩
+      | bigf w => exact absurd rfl hd
+      | rat w => exact absurd ⟨rfl, rfl⟩ hfr
+    | rat v =>
+      cases b with
+      | int sb =>
+        cases sb with
+        | small y => exact ⟨.rat v, .rat (y.toInt : Int), by promo, rfl⟩
+        | big w => exact ⟨.rat v, .rat (w : Int), by promo, rfl⟩
+      | f64 w => exact ⟨.rat v, .rat w, by promo, rfl⟩
+      | bigf w => exact absurd ⟨rfl, rfl⟩ hrf
+      | rat w => exact absurd rfl hd
+  obtain ⟨a', b', h, hi⟩ := key
+  obtain ⟨h1, h2⟩ := toSame_val a b a' b' h
+  exact ⟨a', b', h, h1, h2, hi⟩
+
+/-- in every case: when the promotion succeeds in the model, the values are unchanged -/
+theorem promotion_preserves_values (a b a' b' : NC) (h : toSame a b = .ok (a', b')) :
+    a'.val = a.val ∧ b'.val = b.val := toSame_val a b a' b' h
+
+/-- the one promotion that can round (`newFloatConst(0).setRat(r)`, 512 bits): exact iff the rational
+is a binary fraction with a 512-bit mantissa; otherwise the model leaves its exact fragment -/
+theorem promotion_bigf_rat (x y : Rat) :
+    toSame (.bigf x) (.rat y) = (if repQ bigFloatPrec y then .ok (.bigf x, .bigf y) else .error .inexact) ∧
+    toSame (.rat y) (.bigf x) = (if repQ bigFloatPrec y then .ok (.bigf y, .bigf x) else .error .inexact) := by
+  constructor <;>
+    (by_cases h : repQ bigFloatPrec y = true <;>
+      simp [toSame, promote, NC.impl, applySteps, applyStep, stepTarget, stepExactOn, NC.val, bind, Except.bind, h])
+
+-- non-vacuity: an integer that needs 54 bits against a float64 constant, and against a ratConst
+example : toSame (.int (.small 9007199254740993#64)) (.f64 ((2 : Int) : Rat)) =
+    .ok (.bigf ((9007199254740993 : Int) : Rat), .bigf ((2 : Int) : Rat)) := by rfl
+example : (NC.int (.small 9007199254740993#64)).valid ∧ (NC.f64 ((2 : Int) : Rat)).valid := ⟨trivial, by rfl⟩
+example : stepExactOn .i64ToF64 ((9007199254740993 : Int) : Rat) = false := by rfl
 
 /-! ## non-vacuity and the recorded defects -/
 
